@@ -221,6 +221,21 @@ Fixpoint assoc_res (i : nat) (l : list (nat * cres)) : cres :=
 Definition results_of (store : N) (v1 : bool) (ops : list cop) (tr : list ev) : list cres :=
   map (fun i => assoc_res i (exec_atomic store v1 ops (lin_order tr) s_init)) (seq 0 (List.length ops)).
 
+(* ---- OnPut callbacks of the deferred writer -----------------------------------------------
+   DeferredCarWriter.Put (after the closed check, under lk) calls every registered callback in
+   registration order and removes the once-only ones.  Callbacks are registered before the
+   concurrent phase (OnPut is not an operation of the property).  [cb_fires flags n]: the
+   callbacks (by registration number) fired by n successful Puts, in order. *)
+Definition cb_one_put (cbs : list (nat * bool)) : list nat * list (nat * bool) :=
+  (map fst cbs, filter (fun c => negb (snd c)) cbs).
+Fixpoint cb_fires (cbs : list (nat * bool)) (n : nat) : list nat :=
+  match n with
+  | O => []
+  | S k => fst (cb_one_put cbs) ++ cb_fires (snd (cb_one_put cbs)) k
+  end.
+(* what the check demands of the observed invocation counts *)
+Definition cb_expected (once : bool) (oks : N) : N := if once then N.min 1 oks else oks.
+
 (* ---- (4) run entry -------------------------------------------------------------------- *)
 Definition v_op (v : val) : cop := {| c_kind := vN (vnth 1 v); c_ids := map vN (vL (vnth 2 v)) |}.
 Definition v_hist (v : val) : N * N := (vN (vnth 0 v), vN (vnth 1 v)).
@@ -265,6 +280,12 @@ Definition v_witness (n : nat) (v : val) : list nat :=
 Definition final_keys (s : sst) (store : N) : list N :=
   if (store =? 2) && negb (s_created s) then [] else s_keys s.
 
+Definition v_cbs (input : val) : list bool := map vbool (vL (vnth 1 (vnth 1 input))).
+(* number of Puts that returned ok, given the result of every operation *)
+Definition put_oks (ops : list cop) (res : nat -> cres) : N :=
+  N.of_nat (List.length (filter (fun i => (c_kind (nth_op ops i) =? 0) && res_eqb (res i) ROk)
+                                (seq 0 (List.length ops)))).
+
 Definition run_conc (input : val) : val :=
   let store := vN (vnth 0 input) in
   let v1 := vbool (vnth 0 (vnth 1 input)) in
@@ -275,7 +296,8 @@ Definition run_conc (input : val) : val :=
   let fin := final_state store v1 ops w in
   VL [VL (map (fun i => res_v (assoc_res i rs)) (seq 0 n));
       VL (map VN (final_keys fin store));
-      VN 1; VN 0; VN 0; VB []].
+      VN 1; VN 0; VN 0; VB [];
+      VL (map (fun once => VN (cb_expected once (put_oks ops (fun i => assoc_res i rs)))) (v_cbs input))].
 
 Fixpoint nodupN (l : list N) : bool :=
   match l with [] => true | x :: t => negb (memN x t) && nodupN t end.
@@ -296,4 +318,7 @@ Definition prop_conc (input obs : val) : val :=
   else if negb (listN_eqb final (final_keys (final_state store v1 ops w) store))
   then VL [VT "FAIL"; VT "final-file-differs-from-linearization"; VT "final-file"]
   else if vN (vnth 2 obs) =? 0 then VL [VT "FAIL"; VT "final-file-unreadable"; VT "final-file"]
+  else if negb (listN_eqb (map vN (vL (vnth 6 obs)))
+                          (map (fun once => cb_expected once (put_oks ops (fun i => nth i results RNone))) (v_cbs input)))
+  then VL [VT "FAIL"; VT "onput-callback-count"; VT "deferred-callbacks"]
   else VT "ok".
